@@ -113,11 +113,24 @@ class GateReplacer(Visitor):
         iterations = filter_float(self.visit(block.iterations))
         if block.subcircuit:
             validate_iterations(iterations, "subcircuit")
+        statements = []
+        for stmt in block.statements:
+            new_stmt = self.visit(stmt)
+            if (
+                isinstance(new_stmt, BlockStatement)
+                and not new_stmt.subcircuit
+                and new_stmt.parallel == block.parallel
+            ):
+                # The body of a nested macro call: Jaqal does not nest blocks
+                # of the same kind, so splice it in.
+                statements.extend(new_stmt.statements)
+            else:
+                statements.append(new_stmt)
         return BlockStatement(
             parallel=block.parallel,
             subcircuit=block.subcircuit,
             iterations=iterations,
-            statements=[self.visit(stmt) for stmt in block.statements],
+            statements=statements,
         )
 
     def visit_LoopStatement(self, loop: LoopStatement):
